@@ -270,13 +270,20 @@ def voteRule (c : RCfg) (view : Nat) (b : Block) (agg : Option AggQC) : M Bool :
     let qcBlock ← getBlock b.qc.hash
     let s ← get
     match qcBlock with
-    | some q => if q.view > s.lock.view then return true else extendsM b s.lock
+    | some q =>
+      -- the block to lock on (CommitRule) must be obtainable
+      if q.qc.hash != "" then
+        if (← getBlock q.qc.hash).isNone then return false
+      let s ← get
+      if q.view > s.lock.view then return true else extendsM b s.lock
     | none => extendsM b s.lock
   | .simple =>
     if b.view < view then return false
     match ← getBlock b.qc.hash with
     | none => return false
     | some parent =>
+      if parent.qc.hash != "" then
+        if (← getBlock parent.qc.hash).isNone then return false
       let s ← get
       return !(parent.view < s.lock.view)
   | .fast =>
